@@ -2,7 +2,7 @@
 # usage: tools/selftest_seeded.sh [<seeded-id>...]   applies every seeded change to /repo in turn, runs the quick check of its
 # property, expects a VIOLATION (exit 1), reverts. Prints one line per change; exit 0 iff every change is detected.
 cd /verif || exit 2
-ids="$@"; [ -z "$ids" ] && ids=$(ls seeded | grep -v INDEX)
+ids="$@"; [ -z "$ids" ] && ids=$(ls seeded | grep -E "^C[0-9]+-[0-9]+$")
 fail=0
 for id in $ids; do
   prop=$(python3 -c "import json;print(json.load(open('seeded/$id/meta.json'))['property'])")
